@@ -768,8 +768,10 @@ pub fn wrap_zip(stream: &[u8], plain: &[u8], name_len: usize, extra_len: usize, 
     v.extend_from_slice(&usize_.to_le_bytes());
     v.extend_from_slice(&(name_len as u16).to_le_bytes());
     v.extend_from_slice(&(extra_len as u16).to_le_bytes());
+    // member names are bytes in whatever code page the archiver used: now ASCII, now not UTF-8
+    let legacy = name_len % 2 == 1 || rng.chance(1, 3);
     for _ in 0..name_len {
-        v.push(b'a' + rng.below(26) as u8);
+        v.push(if legacy && rng.chance(1, 3) { 0xe0 + rng.below(31) as u8 } else { b'a' + rng.below(26) as u8 });
     }
     for _ in 0..extra_len {
         v.push(rng.below(256) as u8);
